@@ -105,7 +105,7 @@ func genC04(t *rapid.T) c04Case {
 	}
 	ns := rapid.IntRange(4, 40).Draw(t, "steps")
 	for i := 0; i < ns; i++ {
-		st := c04Step{Kind: rapid.SampledFrom([]int{0, 0, 0, 0, 0, 0, 1, 1, 2, 3, 3, 4}).Draw(t, "step")}
+		st := c04Step{Kind: rapid.SampledFrom([]int{0, 0, 0, 0, 0, 0, 1, 1, 2, 3, 3, 4, 5}).Draw(t, "step")}
 		switch st.Kind {
 		case 0, 4:
 			st.I = rapid.IntRange(0, np-1).Draw(t, "i")
@@ -116,6 +116,18 @@ func genC04(t *rapid.T) c04Case {
 			st.Join = rapid.Bool().Draw(t, "join")
 		}
 		c.Steps = append(c.Steps, st)
+	}
+	// One case in four spells out what the intent-expiry step (5) needs: two
+	// intents with growing times about a member the node never gets to know,
+	// some steps apart, then the expiry pass.
+	if rapid.IntRange(0, 3).Draw(t, "expiry-motif") == 0 {
+		lt := rapid.Uint64Range(1, 5).Draw(t, "expiry-lt")
+		k1, k2 := rapid.IntRange(0, 1).Draw(t, "expiry-k1"), rapid.IntRange(0, 1).Draw(t, "expiry-k2")
+		c.Msgs = append(c.Msgs, c04Msg{Kind: k1, M: 4, LT: lt}, c04Msg{Kind: k2, M: 4, LT: lt + 1 + rapid.Uint64Range(0, 2).Draw(t, "expiry-gap")})
+		i1, i2 := len(c.Msgs)-2, len(c.Msgs)-1
+		at := rapid.IntRange(0, len(c.Steps)).Draw(t, "expiry-at")
+		motif := []c04Step{{Kind: 0, I: i1}, {Kind: 0, I: i2}, {Kind: 5}}
+		c.Steps = append(append(append([]c04Step{}, c.Steps[:at]...), motif...), c.Steps[at:]...)
 	}
 	return c
 }
@@ -243,6 +255,20 @@ func bodyC04(c c04Case, x *vkit.Ctx) {
 			lamport[b] = min(m.LT, maxLT)
 		}
 	}
+	// Buffered intents about members the node does not know expire
+	// RecentIntentTimeout after the node took them. For every such member the
+	// harness keeps when the entry was created (after the first accepted
+	// intent) and the interval in which the newest accepted intent was taken.
+	type intentAge struct {
+		firstA       time.Time // after the delivery that created the entry
+		lastB, lastA time.Time // around the delivery of the newest accepted intent
+		lastMsg      string
+	}
+	ages := map[string]*intentAge{}
+	everKnown, notJudged := map[string]bool{}, map[string]bool{}
+	var tb, ta time.Time
+	expiryReaps, expiryJudged := 0, 0
+	intentT := n.Conf.RecentIntentTimeout
 	mlUp := map[int]bool{}
 	prevQ := readQueues()
 	prevMembers := memberSet()
@@ -294,7 +320,67 @@ func bodyC04(c c04Case, x *vkit.Ctx) {
 			if isSelfJoin(injected) {
 				selfJoinInjected++
 			}
+			tb = time.Now()
 			n.Delegate.NotifyMsg(b)
+			ta = time.Now()
+		case 5:
+			// Expiry pass of the intent buffer at an instant of the harness'
+			// choosing: after the entry about X was created (+T) but well before
+			// its newest intent is T old. The entry must survive, so a duplicate of
+			// that newest intent - delivered right after the pass - is still
+			// remembered and must not be re-broadcast. Entries about other members
+			// that are surely T old at that instant are forgotten; where the
+			// harness' own time readings cannot tell, the member is not judged.
+			var xs []string
+			for name, a := range ages {
+				if a.firstA.Before(a.lastB) && !everKnown[name] {
+					xs = append(xs, name)
+				}
+			}
+			if len(xs) == 0 || intentT <= 0 {
+				continue
+			}
+			sort.Strings(xs)
+			xname := xs[st.I%len(xs)]
+			ax := ages[xname]
+			now := ax.firstA.Add(intentT).Add(ax.lastB.Sub(ax.firstA) / 2)
+			n.Serf.VerifReap(now)
+			expiryReaps++
+			for name, a := range ages {
+				switch {
+				case !a.lastA.Add(intentT).After(now): // surely expired
+					for b, mn := range aboutMember {
+						if mn == name {
+							rebro[b] = 0
+						}
+					}
+					delete(ages, name)
+				case a.lastB.Add(intentT).After(now): // surely retained
+				default:
+					everKnown[name], notJudged[name] = true, true // cannot tell: not judged from here on
+					delete(ages, name)
+				}
+			}
+			// entries about members the harness has no time readings for (taken
+			// through a push/pull or concurrently, or buffered again after an
+			// erasure) may or may not have survived: their messages get the benefit
+			// of the doubt (one more re-broadcast each is not judged)
+			known := memberSet()
+			for b, mn := range aboutMember {
+				if mn != "" && !known[mn] && ages[mn] == nil {
+					rebro[b] = 0
+				}
+			}
+			if ages[xname] == nil {
+				continue
+			}
+			injected = ax.lastMsg
+			what = fmt.Sprintf("intent expiry pass at +%v, then the newest intent about %s again", now.Sub(ax.lastA), xname)
+			redelivered++
+			expiryJudged++
+			tb = time.Now()
+			n.Delegate.NotifyMsg([]byte(injected))
+			ta = time.Now()
 		case 4:
 			m := c04Norm(c.Msgs[st.I%len(c.Msgs)])
 			b := c04Encode(m)
@@ -416,6 +502,9 @@ func bodyC04(c c04Case, x *vkit.Ctx) {
 			if added <= 0 {
 				continue
 			}
+			if notJudged[aboutMember[e]] {
+				continue
+			}
 			if isSelfJoin(e) && (e != injected || unloggedOrigination) {
 				refutes += added // an origination (refutation of a claim about self)
 				continue
@@ -448,6 +537,21 @@ func bodyC04(c c04Case, x *vkit.Ctx) {
 			}
 			rebro[e] += added
 			rebroKinds[kindOf[e]] = true
+			// an intent about a member the node does not know was taken into the
+			// buffer (that is why it was passed on): its age counts from this step
+			if name := aboutMember[e]; name != "" && e == injected && !prevMembers[name] && !everKnown[name] {
+				if st.Kind == 0 || st.Kind == 5 {
+					a := ages[name]
+					if a == nil {
+						a = &intentAge{firstA: ta}
+						ages[name] = a
+					}
+					a.lastB, a.lastA, a.lastMsg = tb, ta, e
+				} else {
+					everKnown[name] = true // taken concurrently: no usable time reading
+					delete(ages, name)
+				}
+			}
 		}
 		for e, cnt := range prevQ {
 			if q[e] < cnt {
@@ -457,6 +561,12 @@ func bodyC04(c c04Case, x *vkit.Ctx) {
 			}
 		}
 		prevQ = q
+		for name := range memberSet() {
+			if !everKnown[name] {
+				everKnown[name] = true
+				delete(ages, name)
+			}
+		}
 		// a member the node has erased (prune) is forgotten: its intents start a new retention
 		ms := memberSet()
 		for name := range prevMembers {
@@ -496,6 +606,12 @@ func bodyC04(c c04Case, x *vkit.Ctx) {
 	}
 	if selfJoinRebro > 0 {
 		x.Label("rebroadcast:join-intent-about-self")
+	}
+	if expiryReaps > 0 {
+		x.Label("intent-expiry-pass")
+	}
+	if expiryJudged > 0 {
+		x.Label("newest-intent-redelivered-after-expiry-pass")
 	}
 	if concurrent > 0 {
 		x.Label("concurrent-duplicates")
